@@ -18,6 +18,9 @@ import (
 type c09Case struct {
 	S, D string
 	Amps []int64 // source amplitudes (one, or lower+higher)
+	Ch   []int   // channel count of the buffers each value went through
+	Pos  []int   // interleaved position of each value inside its block
+	Len  []int   // length of that block
 }
 
 func ulpOf(v float64, f32 bool) float64 {
@@ -83,15 +86,14 @@ func c09EvalCase(cs c09Case) (fs []F) {
 	s, d := typeByName(cs.S), typeByName(cs.D)
 	ts := dyn.Types[s]
 	n := len(cs.Amps)
-	fwd := dyn.ConvBlock(s, d, n)
-	in := make([]uint64, n)
-	out := make([]uint64, n)
+	vals := make([]uint64, n)
 	for i, a := range cs.Amps {
-		in[i] = ampToRaw(ts.Kind, ts.Bits, a)
+		vals[i] = ampToRaw(ts.Kind, ts.Bits, a)
 	}
-	fwd(in, out)
-	name := dyn.ConvName(s, d) + "/" + cs.S + "->" + cs.D
 	f32 := d == dyn.Float32
+	doBack := (ts.Bits <= 32 && !f32) || (ts.Bits <= 16 && f32)
+	out, out2 := evalAt(s, d, vals, cs.Pos, cs.Len, cs.Ch, doBack)
+	name := dyn.ConvName(s, d) + "/" + cs.S + "->" + cs.D
 	mk := func(kind string, a int64, msg string) F {
 		return F{Key: name + "/" + kind, Code: c09Code(ts.Kind, ts.Bits, a), HasCode: true, Msg: fmt.Sprintf("%s (code %d): %s", name, c09Code(ts.Kind, ts.Bits, a), msg)}
 	}
@@ -111,10 +113,7 @@ func c09EvalCase(cs c09Case) (fs []F) {
 		}
 	}
 	// round trip through the matching float->fixed conversion
-	if (ts.Bits <= 32 && !f32) || (ts.Bits <= 16 && f32) {
-		back := dyn.ConvBlock(d, s, n)
-		out2 := make([]uint64, n)
-		back(out, out2)
+	if doBack {
 		for i, a := range cs.Amps {
 			g := rawToAmp(ts.Kind, ts.Bits, out2[i])
 			if !f32 && g != a {
@@ -170,15 +169,20 @@ func c09Run(c *core.Ctx) {
 				dm = dom{"boundary alphabet + 70000 values at each end and each side of zero", genList(sortedUnique(xs)), 4, false}
 			}
 			nfail := newFailCap(2000)
-			report := func(amps ...int64) {
-				cs := c09Case{ts.Name, td.Name, amps}
-				c.Fail(cs, c09EvalCase(cs)...)
+			report := func(p sweepPos, kind string, amps ...int64) {
+				chs, pos, lens := posOf(p, false)
+				cs := c09Case{ts.Name, td.Name, amps, chs, pos, lens}
+				fs := c09EvalCase(cs)
+				if len(fs) == 0 {
+					c.InternalError("%s: failure %s at amplitude %v (channels %d, position %d) seen in the sweep does not reproduce in isolation", name, kind, amps, p.Ch, p.Idx)
+				}
+				c.Fail(cs, fs...)
 			}
-			newEval := func() func(in, out []int64) {
-				fwd := dyn.ConvBlock(s, d, blockN)
+			newEval := func(ch int) func(in, out []int64) {
+				fwd := dyn.ConvBlockCh(s, d, blockN, ch)
 				var back func(in, out []uint64)
 				if roundtrip {
-					back = dyn.ConvBlock(d, s, blockN)
+					back = dyn.ConvBlockCh(d, s, blockN, ch)
 				}
 				rin := make([]uint64, blockN)
 				rout := make([]uint64, blockN)
@@ -204,24 +208,25 @@ func c09Run(c *core.Ctx) {
 								bad = g < a-1 || g > a+1
 							}
 							if bad && nfail.ok("roundtrip") {
-								report(a)
+								report(sweepPos{ch, i, 0, n, 0, ch}, "roundtrip", a)
 							}
 						}
 					}
 				}
 			}
-			point := func(a, k int64) {
+			point := func(p sweepPos, a, k int64) {
 				v := fromKey(k)
 				if k == math.MaxInt64 {
 					v = math.NaN()
 				}
 				if kind, _ := c09Point(ts.Bits, f32, a, v); kind != "" && nfail.ok(kind) {
-					report(a)
+					report(p, kind, a)
 				}
 			}
-			orderFail := func(pa, po, a, o int64) {
+			orderFail := func(p sweepPos, pa, po, a, o int64) {
 				if nfail.ok("order") {
-					cs := c09Case{ts.Name, td.Name, []int64{pa, a}}
+					chs, pos, lens := posOf(p, true)
+					cs := c09Case{ts.Name, td.Name, []int64{pa, a}, chs, pos, lens}
 					fs := c09EvalCase(cs)
 					found := false
 					for _, f := range fs {
@@ -235,8 +240,16 @@ func c09Run(c *core.Ctx) {
 					c.Fail(cs, fs...)
 				}
 			}
-			n := runSeqStrict(c, dm.gen, dm.shards, strict, newEval, point, orderFail)
-			evals.Add(n)
+			var n int64
+			if dm.shards == 1 {
+				for _, ch := range []int{1, 2, 3} {
+					n = runSeqStrict(c, dm.gen, 1, []int{ch}, strict, newEval, point, orderFail)
+					evals.Add(n)
+				}
+			} else {
+				n = runSeqStrict(c, dm.gen, dm.shards, []int{2, 1, 3}, strict, newEval, point, orderFail)
+				evals.Add(n)
+			}
 			distinct.Add(n)
 			if dm.exh {
 				exh++
@@ -251,7 +264,7 @@ func c09Run(c *core.Ctx) {
 	c.Set("instantiations", inst)
 	c.Set("instantiations_with_exhaustive_source_domain", exh)
 	c.Set("exhaustive", exh == inst)
-	c.Set("rule", "22 instantiations through the real conversion in blocks, amplitudes ascending (order / strict order is a streaming check); 8/16-bit sources: every value; 32-bit: quick = boundary alphabet + 70000 values at each end and around zero, thorough = every value; 64-bit: boundary alphabet + the same edge runs; the round trip composes with the real FloatAsSigned/FloatAsUnsigned; distinct_nontrivial = source values (distinct by construction), each judged for range, reference levels, accuracy, order and round trip")
+	c.Set("rule", "22 instantiations through the real conversion on real buffers with 1, 2 and 3 channels in blocks (destination pre-filled with garbage), amplitudes ascending (order / strict order is a streaming check); 8/16-bit sources: every value; 32-bit: quick = boundary alphabet + 70000 values at each end and around zero, thorough = every value; 64-bit: boundary alphabet + the same edge runs; the round trip composes with the real FloatAsSigned/FloatAsUnsigned; distinct_nontrivial = source values (distinct by construction), each judged for range, reference levels, accuracy, order and round trip")
 	c.Assume("64-bit sources are covered by a finite alphabet only", "accuracy tolerance: one source step + 5 eps of the destination float type relative to full scale 1.0 (float rounding of code, offset subtraction and division)", "linux/amd64")
 }
 
